@@ -736,6 +736,24 @@ pub fn adversarial_packets(r: &mut Rng, scale: usize) -> Vec<Vec<u8>> {
         rr(&mut p, &[0], 41, 0, &rd);
         out.push(p);
     }
+    // long runs of short labels in bytes that are never validated as a name (opaque data), with many
+    // records whose names point at the run: a correct walker gives up after 255 name bytes
+    for (run, nrec) in [(130usize, 50usize), (1000, scale.min(800)), (20000, scale.min(1500))] {
+        let mut rd = vec![];
+        for _ in 0..run {
+            rd.extend(&[1, b'x']);
+        }
+        rd.push(0);
+        let mut p = header(16, 0x8180, 1, (1 + nrec) as u16, 0, 0);
+        question(&mut p, &[1, b'r', 0], 16);
+        let at = p.len() + 3 + 10;
+        rr(&mut p, &[1, b'r', 0], 16, 1, &rd);
+        for i in 0..nrec {
+            // pointers to the start of the run and to places inside it
+            rr(&mut p, &ptr((at + 2 * (i % 7)).min(16383)), 1, 1, &[1, 1, 1, 1]);
+        }
+        out.push(p);
+    }
     // loops
     for k in [1usize, 2, 5] {
         let mut p = header(14, 0x8000, 1, k as u16, 0, 0);
@@ -853,7 +871,7 @@ pub fn compress_families() -> Vec<Vec<u8>> {
         out.push(p);
     }
     // names beyond offset 16383: a big opaque record first, then repeated names
-    for pad in [16300usize, 16350, 16370, 16380, 16400, 30000] {
+    for pad in [16300usize, 16349, 16350, 16351, 16352, 16353, 16354, 16355, 16356, 16357, 16370, 16380, 16400, 30000] {
         let mut p = header(23, 0x8000, 1, 5, 0, 0);
         question(&mut p, &[1, b'q', 0], 1);
         rr(&mut p, &[1, b'q', 0], 16, 1, &vec![b'p'; pad]);
